@@ -8,8 +8,8 @@ use super::castle_rights_bitmask::{CastleRightsBitmask, ALL_CASTLE_RIGHTS};
 pub struct MoveInfo {
     en_passant_target_stack: Vec<Bitboard>,
     castle_rights_stack: Vec<CastleRightsBitmask>,
-    halfmove_clock_stack: Vec<u8>,
-    fullmove_clock: u8,
+    halfmove_clock_stack: Vec<u16>,
+    fullmove_clock: u16,
 }
 
 impl Default for MoveInfo {
@@ -81,47 +81,47 @@ impl MoveInfo {
 
     // Position clock state management
 
-    pub fn increment_fullmove_clock(&mut self) -> u8 {
+    pub fn increment_fullmove_clock(&mut self) -> u16 {
         self.fullmove_clock += 1;
         self.fullmove_clock
     }
 
-    pub fn decrement_fullmove_clock(&mut self) -> u8 {
+    pub fn decrement_fullmove_clock(&mut self) -> u16 {
         self.fullmove_clock -= 1;
         self.fullmove_clock
     }
 
-    pub fn set_fullmove_clock(&mut self, clock: u8) -> u8 {
+    pub fn set_fullmove_clock(&mut self, clock: u16) -> u16 {
         self.fullmove_clock = clock;
         clock
     }
 
-    pub fn fullmove_clock(&self) -> u8 {
+    pub fn fullmove_clock(&self) -> u16 {
         self.fullmove_clock
     }
 
-    pub fn push_halfmove_clock(&mut self, clock: u8) -> u8 {
+    pub fn push_halfmove_clock(&mut self, clock: u16) -> u16 {
         self.halfmove_clock_stack.push(clock);
         clock
     }
 
-    pub fn increment_halfmove_clock(&mut self) -> u8 {
+    pub fn increment_halfmove_clock(&mut self) -> u16 {
         let old_clock = self.halfmove_clock_stack.last().unwrap();
         let new_clock = old_clock + 1;
         self.halfmove_clock_stack.push(new_clock);
         new_clock
     }
 
-    pub fn reset_halfmove_clock(&mut self) -> u8 {
+    pub fn reset_halfmove_clock(&mut self) -> u16 {
         self.halfmove_clock_stack.push(0);
         0
     }
 
-    pub fn halfmove_clock(&self) -> u8 {
+    pub fn halfmove_clock(&self) -> u16 {
         *self.halfmove_clock_stack.last().unwrap()
     }
 
-    pub fn pop_halfmove_clock(&mut self) -> u8 {
+    pub fn pop_halfmove_clock(&mut self) -> u16 {
         self.halfmove_clock_stack.pop().unwrap()
     }
 
